@@ -54,6 +54,22 @@ theorem {pn}_any_history_then_update_plane{plane} (progs : List (List Act)) (u :
     for (r, o, p) in [(r, o, p) for r in ("full", "quick") for o in ("off", "on") for p in ("nopf", "pf")]:
         mod, name, *_ = d[(r, o, p)]
         body.append(f"  · exact (E2EA.{mod}.{name} u' ha' hp' l hs' bg sm od b0 h0).2")
+    PAN = "Panels.E" + pn[1:]
+    L.append(f"import EpdVerif.Props.{PAN}")
+    body.append(f"""
+/-- {pn}, plane {plane} — RECOVERY (C04 c, C08 iv): from ANY controller state of the panel's kind (asleep, in
+    partial mode, whatever a failed or interrupted call left behind) `wake_up`, then any history, then
+    `update_frame` delivers the buffer; every driver state at each step, every buffer -/
+theorem {pn}_wake_from_any_state_then_update_plane{plane} (u : Uc) (h14 : u.has14 = {h14}) (hsz : u.{pf}.size = {size})
+    (d0 : DState) (progs : List (List Act))
+    (h : ∀ a, a ∈ progs → keepsModeP ({P}.panel {{}}) a = true ∨ establishesModeP ({P}.panel {{}}) a = true)
+    (d : DState) (b0 : Bytes) (h0 : b0.length = {blen}) :
+    ∃ u1 u' : Uc, (Ctrl.uc u).run (blocksOf (({P}.prog {{}} d0 .wake).getD [])) = .uc u1 ∧
+      progs.foldl (fun c a => c.run (blocksOf a)) (Ctrl.uc u1) = .uc u' ∧
+      (Uc.planeU {plane} ((blocksOf ((({P}.panel {{}}).prog d (.upd b0)).getD [.panic])).foldl Uc.feed u')).toList = {rhs} := by
+  obtain ⟨u1, e1, a1, p1, f1, z1, z2⟩ := uc_recover ({P}.panel {{}}) _ rfl _ ({pn}_wake_establishes_mode {{}} d0) u (by rw [h14]; rfl)
+  obtain ⟨u', e2, r⟩ := {pn}_any_history_then_update_plane{plane} progs u1 a1 p1 (by rw [f1]; rfl) (by rw [{'z1' if plane == '0' else 'z2'}, hsz]) h d b0 h0
+  exact ⟨u1, u', e1, e2, r⟩""")
 # ---- SSD16xx panels
 SSD = ["epd1in54", "epd1in54_v2", "epd2in9", "epd2in13_v2", "epd2in7_v2"]
 sinst = {}
@@ -96,6 +112,23 @@ theorem {pn}_any_history_then_update_plane{plane} (progs : List (List Act)) (s :
     for (r, o, p) in COMBOS:
         mod, name, *_ = d[(r, o, p)]
         body.append(f"  · exact (E2EA.{mod}.{name} s' hw' ha' he' hx' hs' hr' bg sm od b0 h0).2")
+    PAN = "Panels.E" + pn[1:]
+    L.append(f"import EpdVerif.Props.{PAN}")
+    concl2 = concl.replace("s')", "s2)")
+    body.append(f"""
+/-- {pn}, plane {plane} (SSD16xx) — RECOVERY: from ANY controller state of the panel's kind `wake_up`, then any
+    history, then `update_frame` delivers the buffer -/
+theorem {pn}_wake_from_any_state_then_update_plane{plane} (s : Ssd) (hw : Ssd.WfSize s)
+    (hx : s.xPix = {xpix}) (hs : s.stride = {stride}) (hr : s.rows = {rows})
+    (d0 : DState) (progs : List (List Act))
+    (h : ∀ a, a ∈ progs → keepsModeP ({P}.panel {{}}) a = true ∨ establishesModeP ({P}.panel {{}}) a = true)
+    (d : DState) (b0 : Bytes) (h0 : b0.length = {blen}) :
+    ∃ s1 s2 : Ssd, (Ctrl.ssd s).run (blocksOf (({P}.prog {{}} d0 .wake).getD [])) = .ssd s1 ∧
+      progs.foldl (fun c a => c.run (blocksOf a)) (Ctrl.ssd s1) = .ssd s2 ∧
+      {concl2} := by
+  obtain ⟨s1, e1, w1, a1, n1, x1, t1, r1⟩ := ssd_recover ({P}.panel {{}}) _ rfl _ ({pn}_wake_establishes_mode {{}} d0) s hw (by rw [hx]; rfl) (by rw [hs]; rfl) (by rw [hr]; rfl)
+  obtain ⟨s2, e2, r⟩ := {pn}_any_history_then_update_plane{plane} progs s1 w1 a1 n1 (by rw [x1]; rfl) (by rw [t1]; rfl) (by rw [r1]; rfl) h d b0 h0
+  exact ⟨s1, s2, e1, e2, r⟩""")
 L = sorted(set(L), key=lambda x: (x != "import EpdVerif.Props.C02Partial", x))
 out = "\n".join(L) + """
 /-!
